@@ -689,40 +689,3 @@ Lemma repaired_on_witnesses :
               /\ inv n' = true).
 Proof. repeat split; eexists; (split; vm_compute; reflexivity). Qed.
 
-(* ------------------------------------------------------------------ reachability over guarded edit lists *)
-Lemma inv_step_G22 n o n' : G22 n o = true -> Inv n -> step n o = Ok n' -> Inv n'.
-Proof.
-  destruct o; cbn [G22 step]; intros G I E; try discriminate.
-  - eapply inv_step_create_bus; eauto.
-  - eapply inv_step_create_el; eauto.
-  - eapply inv_step_create_switch; eauto.
-  - apply andb_true_iff in G. destruct G as [G1 G2]. eapply inv_step_create_meas; eauto.
-    intros b Hb. subst s. cbn [side_ok] in G2. apply zin_true, G2.
-  - eapply inv_step_create_cost_partial; eauto.
-  - eapply inv_step_create_group; eauto.
-  - eapply inv_step_create_ctrl_partial; eauto.
-  - eapply inv_step_drop_lines; eauto.
-  - eapply inv_step_drop_trafos; eauto.
-  - destruct t; try discriminate. eapply inv_step_reindex_elements; eauto.
-Qed.
-Lemma inv_reachable ops : forall n, Inv n -> guarded n ops = true -> Inv (run_ops n ops).
-Proof.
-  induction ops as [|o r IH]; intros n I G; simpl; [exact I|].
-  simpl in G. apply andb_true_iff in G. destruct G as [G1 G2].
-  destruct (step n o) as [n'|s] eqn:E.
-  - apply IH; [eapply inv_step_G22; eauto | exact G2].
-  - apply IH; assumption.
-Qed.
-Lemma inv_reachable_from_empty ops : guarded empty_net ops = true -> inv (run_ops empty_net ops) = true.
-Proof. intros G. apply inv_iff, inv_reachable; [apply inv_init | exact G]. Qed.
-(* the hypotheses are satisfiable by a non-trivial edit list: build a net, then drop a line that has a switch, a
-   measurement and a group membership *)
-Definition ex_ops : list op :=
-  [OCreateBus 3; OCreateBus 7; OCreateBus 9; OCreateEl Line 4 [3; 7]; OCreateEl Line 2 [7; 9]; OCreateEl Load 1 [9];
-   OCreateSwitch 5 3 SL 4; OCreateSwitch 6 3 SB 7; OCreateMeas 0 1%nat (TEl Line) 4 (SideBus 3); OCreateCost true 0 Load 1;
-   OCreateGroup 2 (TEl Line) [4; 2]; OCreateGroup 3 TSwitch [5]; OCreateCtrl Load [1] false;
-   OReindexElements (TEl Line) [(4, 11)]; ODropLines [11]].
-Lemma reachable_nonvacuous :
-  guarded empty_net ex_ops = true /\ el_ids (run_ops empty_net ex_ops) Line = [2] /\ sw (run_ops empty_net ex_ops) <> [] /\
-  map gid (grp (run_ops empty_net ex_ops)) = [2].
-Proof. vm_compute. repeat split. discriminate. Qed.
